@@ -315,11 +315,11 @@ type CTCase struct {
 func sctList(n int) []byte {
 	var list []byte
 	for i := 0; i < n; i++ {
-		sct := []byte{0}                                         // v1
+		sct := []byte{0}                                               // v1
 		sct = append(sct, bytes.Repeat([]byte{0xa0 + byte(i)}, 32)...) // log id
-		sct = append(sct, 0, 0, 1, 0x70, 0, 0, 0, byte(i))      // timestamp
-		sct = append(sct, 0, 0)                                  // no extensions
-		sct = append(sct, 4, 3, 0, 4, 1, 2, 3, 4)                // sha256/ecdsa, 4-byte "signature"
+		sct = append(sct, 0, 0, 1, 0x70, 0, 0, 0, byte(i))             // timestamp
+		sct = append(sct, 0, 0)                                        // no extensions
+		sct = append(sct, 4, 3, 0, 4, 1, 2, 3, 4)                      // sha256/ecdsa, 4-byte "signature"
 		list = append(list, byte(len(sct)>>8), byte(len(sct)))
 		list = append(list, sct...)
 	}
@@ -347,6 +347,10 @@ func ctExt(kind string) stdpkix.Extension {
 		return stdExt(oidSCT, false, sctList(2))
 	case "sct0":
 		return stdExt(oidSCT, false, sctList(0))
+	case "poisonnc": // poison without the critical flag
+		return stdExt(oidPoison, false, []byte{5, 0})
+	case "sctc": // SCT list marked critical
+		return stdExt(oidSCT, true, sctList(2))
 	}
 	panic("iss: unknown CT-case extension kind " + kind)
 }
